@@ -87,6 +87,11 @@ impl PxWorld {
         for _ in 0..nusers {
             users.push(b.create_user_account(&zero));
         }
+        // the whitelisted contract that acts on behalf of users (a contract account without code of interest)
+        let nplain = users.len();
+        let mgr: FacW = b.create_sc_account(&zero, Some(&owner), fac_builder as fn() -> FacObj, "position manager");
+        let mgr_addr = mgr.address_ref().clone();
+        users.push(mgr_addr.clone());
         b.set_block_epoch(epoch0);
         b.set_block_nonce(1);
         b.set_block_round(1);
@@ -150,6 +155,7 @@ impl PxWorld {
             sc.intermediated_pairs().insert(managed_address!(&pair_addr));
             sc.intermediated_farms().insert(managed_address!(&fl_addr));
             sc.intermediated_farms().insert(managed_address!(&fw_addr));
+            sc.add_sc_address_to_whitelist(managed_address!(&mgr_addr));
         })
         .assert_ok();
         b.set_esdt_local_roles(proxy.address_ref(), BASE, &[EsdtLocalRole::Mint, EsdtLocalRole::Burn]);
@@ -225,6 +231,8 @@ impl PxWorld {
             floors: 0,
             stray_total: BigUint::zero(),
             pending: vec![],
+            nplain,
+            ded: vec![BigInt::zero(); nplain + 1],
         };
         let s = w.snap();
         w.c0 = bi(&s.tot_base) + bi(&bag_sum(&s.tot_lk));
